@@ -21,6 +21,8 @@ pub mod constants;
 pub mod plan;
 pub mod repr;
 pub mod serialize;
+#[cfg(feature = "verif-hooks")]
+pub mod verif_hooks;
 
 #[cfg(target_arch = "wasm32")]
 pub mod wasm;
